@@ -244,6 +244,19 @@ def generate(rng, tier, boost):
                 dec(hrp, u[:i] + s[i] + u[i + 1:])
         for _ in range(60 if big else 10):
             dec(hrp, ''.join(c.upper() if rng.random() < 0.5 else c for c in s))
+    # non-ASCII characters whose case mapping lands inside the charset (KELVIN SIGN -> k, LONG S -> S,
+    # dotted capital I -> i + combining dot): never a valid character, whatever the order of the
+    # range test and the case folding
+    FOLD = {'k': [0x212a], 's': [0x17f], 'K': [0x212a], 'S': [0x17f]}
+    for hrp, s in refs + shorts:
+        for base in (s, s.upper()):
+            for i, ch in enumerate(base):
+                for cp in FOLD.get(ch, []):
+                    t = T(base)
+                    t[i] = cp
+                    cases.extend([(1104, [T(hrp), t]), (1102, [t])])
+            t = T(base)
+            cases.extend([(1104, [T(hrp), t[:len(hrp) + 1] + [0x130] + t[len(hrp) + 2:]]), (1102, [[0x212a] + t[1:]])])
     # an address whose data part has no letters at all cannot be built on purpose cheaply; the
     # all-digit corner is covered by junk strings below and by the proof
     # ---- C. padding ------------------------------------------------------------------
